@@ -3,6 +3,7 @@
 //! note: RAA blockers (PeerState::actions_blocking_raa_monitor_updates): registering a blocker on a channel appends it to that channel's list and never drops a blocker already registered (for this or any other channel) -- the monitor update of the downstream peer's next revoke_and_ack stays held until every upstream preimage it depends on is durably persisted
 //! trusted: R15 (deep slices): the statement(s) that register an RAA blocker in (a) internal_update_fulfill_htlc (body of `for prev_hop in res.0.previous_hop_data()`), (b) claim_mpp_part (live-channel arm), (c) claim_mpp_part (closed-channel arm, `.or_default()`), (d) from_channel_manager_data (re-registering the blockers of queued EmitEventOptionAndFreeOtherChannel actions on reload), each verbatim as a function of the blocker map; everything around them (the channel state machine call, the preimage monitor update, the completion actions) is dropped and not claimed here
 //! trusted: R15 (deep slice): handle_monitor_update_release: the predicate of the `retain` that removes the completed blocker from its channel's list, verbatim as a bool function; RAAMonitorUpdateBlockingAction's derived PartialEq is structural equality; the retain call itself and the removal of an emptied list are dropped and not claimed; raa_monitor_updates_held: the closure body and the default of `.get(&channel_id).map(|v| ..).unwrap_or(..)` (first disjunct) are placed in the two arms of a match on the looked-up list (std semantics of Option::map / unwrap_or); the second disjunct (pending ReleaseRAAChannelMonitorUpdate events) is dropped and not claimed
+//! trusted: R15 (deep slices): ChannelMonitorImpl::is_resolving_htlc_output: the two predicates that decide whether an on-chain preimage claim has already been reported (closure bodies of the `any` over pending_monitor_events) and the two HTLCUpdate values pushed as MonitorEvent::HTLCEvent, verbatim as functions; struct HTLCUpdate is extracted; HTLCSource opaque with structural equality; scanning the commitment for the HTLC, the ANTI_REORG_DELAY bookkeeping and the timeout branch are dropped and not claimed
 //! trusted: env: the BTreeMap<ChannelId, Vec<RAAMonitorUpdateBlockingAction>> is an environment type whose entry API carries the std contracts, written with Verus' mutable-reference prophecy: entry(k) lends the slot of k (None when absent), what is left in the slot is what the map holds afterwards; or_insert_with / or_insert / or_default fill an empty slot (with the result of the closure / the value / an empty Vec) and lend the vector; Vec::new has vstd's specification; a key closure without a specification is unconstrained; RAAMonitorUpdateBlockingAction is opaque, from_prev_hop_data is an uninterpreted function of the hop data; R3: log_trace! statements removed; R10: `blocked_peer_state.lock().unwrap()` is written `blocked_peer_state` (Mutex guard elided: single-threaded reading)
 use vstd::prelude::*;
 verus! {
@@ -144,5 +145,63 @@ pub open spec fn registered(m: Map<ChannelId, Blockers>, k: ChannelId, b: RAAMon
 //@with
     .map(|v| v.is_empty())
 //@end
+
+// ---- on-chain preimage from the downstream monitor (is_resolving_htlc_output) -------------------------
+pub mod onchain_preimage {
+use vstd::prelude::*;
+#[derive(Clone, Copy)] pub struct PaymentHash(pub [u8; 32]);
+#[derive(Clone, Copy)] pub struct PaymentPreimage(pub [u8; 32]);
+pub struct HTLCSource { pub id: u64 }
+impl vstd::std_specs::cmp::PartialEqSpecImpl for HTLCSource { open spec fn obeys_eq_spec() -> bool { true } open spec fn eq_spec(&self, other: &HTLCSource) -> bool { *self == *other } }
+impl PartialEq for HTLCSource { #[verifier::external_body] fn eq(&self, o: &HTLCSource) -> (r: bool) { unimplemented!() } }
+impl vstd::std_specs::cmp::PartialEqSpecImpl for PaymentHash { open spec fn obeys_eq_spec() -> bool { true } open spec fn eq_spec(&self, other: &PaymentHash) -> bool { *self == *other } }
+impl PartialEq for PaymentHash { #[verifier::external_body] fn eq(&self, o: &PaymentHash) -> (r: bool) { unimplemented!() } }
+//@extract lightning/src/chain/channelmonitor.rs :: struct HTLCUpdate
+//@end
+//@extract lightning/src/chain/channelmonitor.rs :: impl ChannelMonitorImpl :: fn is_resolving_htlc_output
+//@slice R15 nth=1
+    if !self.pending_monitor_events.iter().any( |update| if let &MonitorEvent::HTLCEvent(ref upd) = update { $p:cond } else { false }) {
+//@with
+    fn accepted_preimage_claim_already_reported(upd: &HTLCUpdate, source: HTLCSource, payment_hash: PaymentHash) -> bool { $p }
+//@ret r
+//@ensures P C02 a-preimage-seen-on-chain-is-treated-as-already-reported-only-if-an-event-for-that-very-htlc-is-queued
+    r == (upd.source == source),
+//@mutant another_htlc_with_the_same_hash_counts_as_reported
+    if accepted_preimage_claim { if !self.pending_monitor_events.iter().any( |update| if let &MonitorEvent::HTLCEvent(ref upd) = update { upd.source == source }
+//@with
+    if accepted_preimage_claim { if !self.pending_monitor_events.iter().any( |update| if let &MonitorEvent::HTLCEvent(ref upd) = update { upd.payment_hash == payment_hash }
+//@end
+//@extract lightning/src/chain/channelmonitor.rs :: impl ChannelMonitorImpl :: fn is_resolving_htlc_output
+//@slice R15 nth=2
+    if !self.pending_monitor_events.iter().any( |update| if let &MonitorEvent::HTLCEvent(ref upd) = update { $p:cond } else { false }) {
+//@with
+    fn offered_preimage_claim_already_reported(upd: &HTLCUpdate, source: HTLCSource, payment_hash: PaymentHash) -> bool { $p }
+//@ret r
+//@ensures P C02 a-preimage-seen-on-chain-is-treated-as-already-reported-only-if-an-event-for-that-very-htlc-is-queued
+    r == (upd.source == source),
+//@end
+//@extract lightning/src/chain/channelmonitor.rs :: impl ChannelMonitorImpl :: fn is_resolving_htlc_output
+//@slice R15 nth=1
+    self.pending_monitor_events.push(MonitorEvent::HTLCEvent(HTLCUpdate { $fields:any }));
+//@with
+    fn event_for_accepted_preimage_claim(source: HTLCSource, payment_preimage: PaymentPreimage, payment_hash: PaymentHash, amount_msat: u64) -> HTLCUpdate { HTLCUpdate { $fields } }
+//@ret r
+//@ensures P C02 the-event-handed-to-the-manager-names-the-htlc-and-carries-the-preimage-read-from-the-chain
+    r.source == source, r.payment_preimage == Some(payment_preimage), r.payment_hash == payment_hash, r.htlc_value_satoshis == amount_msat / 1000,
+//@end
+//@extract lightning/src/chain/channelmonitor.rs :: impl ChannelMonitorImpl :: fn is_resolving_htlc_output
+//@slice R15 nth=2
+    self.pending_monitor_events.push(MonitorEvent::HTLCEvent(HTLCUpdate { $fields:any }));
+//@with
+    fn event_for_offered_preimage_claim(source: HTLCSource, payment_preimage: PaymentPreimage, payment_hash: PaymentHash, amount_msat: u64) -> HTLCUpdate { HTLCUpdate { $fields } }
+//@ret r
+//@ensures P C02 the-event-handed-to-the-manager-names-the-htlc-and-carries-the-preimage-read-from-the-chain
+    r.source == source, r.payment_preimage == Some(payment_preimage), r.payment_hash == payment_hash, r.htlc_value_satoshis == amount_msat / 1000,
+//@mutant preimage_left_out_of_the_event
+    payment_preimage: Some(payment_preimage), payment_hash, htlc_value_satoshis: amount_msat / 1000, })); } } else {
+//@with
+    payment_preimage: None, payment_hash, htlc_value_satoshis: amount_msat / 1000, })); } } else {
+//@end
+}
 }
 fn main() {}
